@@ -58,6 +58,9 @@ impl SignatureConverter<'_> {
     }
 
     fn generate_params(&self, sig: &mut syn::Signature, receiver_generation: ReceiverGeneration) {
+        // A lifetime the user has named on the dependency reference (`deps: &'a impl Deps`)
+        let mut deps_lifetime: Option<syn::Lifetime> = None;
+
         match receiver_generation {
             ReceiverGeneration::Insert => {
                 sig.inputs.insert(
@@ -76,6 +79,7 @@ impl SignatureConverter<'_> {
                         syn::Type::Reference(type_reference) => {
                             let and_token = type_reference.and_token;
                             let lifetime = type_reference.lifetime.clone();
+                            deps_lifetime = lifetime.clone();
 
                             *input = self
                                 .gen_first_receiver(pat_type.span(), Some((and_token, lifetime)));
@@ -92,8 +96,16 @@ impl SignatureConverter<'_> {
         }
 
         if matches!(self.impl_receiver_kind, ImplReceiverKind::DynamicImpl) {
-            sig.inputs
-                .insert(1, self.gen_impl_receiver(Span::call_site()));
+            // the `__impl` parameter is the dependency, so the lifetime moves there from `&self`
+            if let Some(syn::FnArg::Receiver(receiver)) = sig.inputs.first_mut() {
+                if let Some((_, lifetime)) = &mut receiver.reference {
+                    *lifetime = None;
+                }
+            }
+            sig.inputs.insert(
+                1,
+                self.gen_impl_receiver(Span::call_site(), deps_lifetime.as_ref()),
+            );
         }
     }
 
@@ -106,7 +118,12 @@ impl SignatureConverter<'_> {
             ImplReceiverKind::SelfRef | ImplReceiverKind::DynamicImpl => {
                 self.gen_self_receiver(span, reference)
             }
-            ImplReceiverKind::StaticImpl => self.gen_impl_receiver(span),
+            ImplReceiverKind::StaticImpl => self.gen_impl_receiver(
+                span,
+                reference
+                    .as_ref()
+                    .and_then(|(_, lifetime)| lifetime.as_ref()),
+            ),
         }
     }
 
@@ -130,10 +147,10 @@ impl SignatureConverter<'_> {
         })
     }
 
-    fn gen_impl_receiver(&self, _: Span) -> syn::FnArg {
+    fn gen_impl_receiver(&self, _: Span, lifetime: Option<&syn::Lifetime>) -> syn::FnArg {
         let entrait = &self.crate_idents.entrait;
         syn::parse_quote! {
-            __impl: &::#entrait::Impl<EntraitT>
+            __impl: & #lifetime ::#entrait::Impl<EntraitT>
         }
     }
 
